@@ -36,6 +36,9 @@ def verdict(ok, why: str = "") -> bool:
         return False
     if MODE.trace is not None and not ok:
         MODE.trace.append(("violated", why))
+    if not ok and os.environ.get("VF_DEBUG"):
+        import sys
+        print("VF_DEBUG violated:", why, file=sys.stderr)
     return bool(ok)
 
 
